@@ -50,7 +50,7 @@ func (lb *LoadBalancer) ListBackends() []BackendInfo {
 			Name:              b.Name,
 			Address:           b.URL.String(),
 			Healthy:           b.IsHealthy,
-			ActiveConnections: b.ActiveConnections,
+			ActiveConnections: b.GetActiveConnections(), // the gauge is updated with atomics
 			Weight:            b.Weight,
 		}
 		b.Mutex.RUnlock()
